@@ -208,7 +208,7 @@ class Model:
                     extra = f"\nExtra: {extra_from_map}"
                 raise ModelConstructionError(f"Mismatched Calibration:{missing}{extra}")
         self.calibration_vector = np.array(
-            [[calibration_map[k] for k in self.arglist_calibration]]
+            [[calibration_map[k] for k in self.arglist_calibration]], dtype=float
         ).transpose()
         if self.calibration_vector.shape != (self.calibration_size, 1):
             raise ModelConstructionError(
@@ -276,7 +276,7 @@ class SensorModel:
         )
 
         self.calibration_vector = np.array(
-            [[calibration_map[k] for k in self.arglist_calibration]]
+            [[calibration_map[k] for k in self.arglist_calibration]], dtype=float
         ).transpose()
         if self.calibration_vector.shape != (self.calibration_size, 1):
             raise ModelConstructionError(
